@@ -28,7 +28,11 @@ class DType:
     def __init__(self, kind, size=None):
         self.kind = kind
         self.size = size
-        self.char = {"f": "d", "i": "l"}.get(kind, kind)
+        # numpy type character: float32 'f', float64 'd'
+        if kind == "f" and size == 4:
+            self.char = "f"
+        else:
+            self.char = {"f": "d", "i": "l"}.get(kind, kind)
 
     def __eq__(self, o):
         return isinstance(o, DType) and (self.kind, self.size) == (
